@@ -17,6 +17,9 @@
 #ifndef V_MASKMODE
 # define V_MASKMODE 0
 #endif
+#ifndef V_PART
+# define V_PART 0   /* 1: mask query only, 2: normalization only */
+#endif
 #ifndef KF_C08_HOST_PCT_LOWERCASED
 # define KF_C08_HOST_PCT_LOWERCASED 0
 #endif
@@ -59,11 +62,20 @@ void harness(void) {
 	ND(unsigned int, mask);
 	ND(unsigned char, gk);
 	VU_INPUT(a);
-	__CPROVER_assume(vu_shape_ok(&a, a_pool) && gk < VT);
+	__CPROVER_assume(vu_shape_ok(&a, a_pool) && vu_legal(&a, a_pool) && gk < VT);
 	sv_of_shape(&v0, &a, a_pool);
 	__CPROVER_assume(sv_reparse_safe(&v0) && all_pct_legal(&v0));
 	/* scheme and port have no percent-encodings; port is digits (irrelevant here) */
 	__CPROVER_assume(no_pct(&v0.scheme) && no_pct(&v0.port));
+#ifdef V_COMPS           /* components outside V_COMPS are absent (bit 0 scheme, 1 user info, 2 host, 3 path, 4 query, 5 fragment, 6 port) */
+	__CPROVER_assume(((V_COMPS) & 1) || a.scheme.len < 0);
+	__CPROVER_assume(((V_COMPS) & 2) || a.userInfo.len < 0);
+	__CPROVER_assume(((V_COMPS) & 4) || a.hostkind == VU_HK_NONE);
+	__CPROVER_assume(((V_COMPS) & 8) || (a.nseg == 0 && a.absolutePath == 0));
+	__CPROVER_assume(((V_COMPS) & 16) || a.query.len < 0);
+	__CPROVER_assume(((V_COMPS) & 32) || a.fragment.len < 0);
+	__CPROVER_assume(((V_COMPS) & 64) || a.port.len < 0);
+#endif
 #if V_MASKMODE == 1      /* every mask without the PATH bit */
 	__CPROVER_assume((mask & URI_NORMALIZE_PATH) == 0);
 #elif V_MASKMODE == 2    /* PATH only */
@@ -89,6 +101,7 @@ void harness(void) {
 	spec_norm_path(&e_path, segstore, &v0);
 	relref = sn_is_relpath_ref(&v0);
 
+#if V_PART != 2
 	/* ---- mask query (read-only) ---- */
 	rmask = URI_FUNC(NormalizeSyntaxMaskRequiredEx)(&u, &m0);
 	VPOST("C08", rmask == URI_SUCCESS && (m0 & ~63u) == 0, "MaskRequired: success, only the six component bits");
@@ -107,10 +120,18 @@ void harness(void) {
 		(m0 & URI_NORMALIZE_PATH) || unspecified || sv_path_eq(&e_path, &v0.path), "MaskRequired: PATH bit clear => path already normal",
 		"C08-network-path-reference-treated-as-relative");
 
-	VCOVER(a.nseg == VM && a.hostkind == VU_HK_REG && a.hostText.len == VL, "reg-name host of VL characters, VM segments");
-	VCOVER(m0 == 0 && a.nseg == VM && a.query.len == VL, "already normal URI with VM segments");
-	VCOVER(m0 == 63u, "everything needs normalization");
+#ifndef V_COMPS
+# define V_COMPS 127
+#endif
+	VCOVER((!((V_COMPS) & 8) || a.nseg == VM) && (!((V_COMPS) & 4) || (a.hostkind == VU_HK_REG && a.hostText.len == VL))
+		&& (!((V_COMPS) & 16) || a.query.len == VL) && (!((V_COMPS) & 1) || a.scheme.len == VL), "every admitted component present at full size");
+#if V_PART != 2
+	VCOVER(m0 == 0, "URI already normal");
+	VCOVER(m0 != 0, "a component needs normalization");
+#endif
 
+#endif
+#if V_PART != 1
 	/* ---- normalization ---- */
 	g_failmask = failmask;
 	ret = URI_FUNC(NormalizeSyntaxExMm)(&u, mask, &vmm);
@@ -154,7 +175,7 @@ void harness(void) {
 				v0.path.rooted || sv_path_empty(&v0.path) || (!v1.path.rooted && !sv_path_empty(&v1.path) && !sv_path_unrooted_reads_rooted(&v1.path)),
 				"NormalizeSyntax: a relative path stays relative and non-empty", "C09-relative-path-collapses");
 		}
-		VPOST_KF("C07", KF_C09_RELPATH_COLLAPSE, (relref && (mask & URI_NORMALIZE_PATH) && (unspecified || (e_path.n > 0 && e_path.seg[0].p == sv_dot && e_path.seg[0].len == 1))),
+		VPOST_KF("C07", KF_C09_RELPATH_COLLAPSE, (relref && (mask & URI_NORMALIZE_PATH) && (unspecified || (e_path.n > 0 && SV_IS_DOT(&e_path.seg[0])))),
 			sv_reparse_safe(&v1), "NormalizeSyntax: result text is read back with the same components", "C07-normalize-relative-path-reparse");
 		/* C12: ownership */
 		if (!V_OWNED && (mask & 63u) != 0) {
@@ -176,4 +197,5 @@ void harness(void) {
 		VPOST_KF("C14,C13", KF_C14_NORMALIZE_PATH_LEAK, (!V_OWNED && (mask & URI_NORMALIZE_PATH) && a.nseg >= 2),
 			g_live == 0, "NormalizeSyntax failed: no block outstanding after the caller's cleanup", "C14-normalize-borrowed-path-leak");
 	}
+#endif
 }
